@@ -298,10 +298,7 @@ func c01concScenarios(r *ev.Run) []conc.Scenario {
 	var scs []conc.Scenario
 	for _, pl := range c01concPlans(r.Thorough()) {
 		pl := pl
-		bound := 1
-		if r.Thorough() {
-			bound = 2
-		}
+		bound := 1 // thorough: one more preemption is explored under a time budget (conc_extra_*)
 		scs = append(scs, conc.Scenario{
 			Name:  fmt.Sprintf("c01 %s [%s] then %s", pl.Backend, strings.Join(pl.Warm, " | "), pl.Name),
 			Key:   "c01 " + pl.Backend + " " + pl.Name,
@@ -340,18 +337,15 @@ func runC01Conc(r *ev.Run) {
 		r.Set("race_rule", "free-running race-detector pass over the concurrency scenarios of the conc phase (block executor, pruner, CheckTx / EstimateGas / historical query as ordinary goroutines in a -race build)")
 		r.Finish()
 	}
-	if r.Thorough() && r.Deadline.IsZero() {
-		// internal deadline: an unfinished enumeration is reported as exhaustive=false, not as a failure
-		r.Deadline = r.Start.Add(14 * time.Minute)
-	}
 	r.Fork(ev.Workers())
-	conc.Explore(r, "chainmc-conc", c01concScenarios(r))
-	b := 1
+	scs := c01concScenarios(r)
+	conc.Explore(r, "chainmc-conc", scs)
 	if r.Thorough() {
-		b = 2
+		// beyond the claimed bound: two preemptions for as long as the time budget lasts
+		conc.ExploreExtra(r, "chainmc-conc", scs, r.Start.Add(12*time.Minute))
 	}
-	r.Set("conc_preemption_bound", b)
-	r.Set("conc_rule", "concurrent activity during block execution: after a sequential warm-up (3 blocks) a replica of the real multiplexer with the keep-last-N state pruner executes the next block (ProcessProposal path or plain replay) as one controlled thread while further controlled threads run the state pruner's Prune (as the prune worker does after the previous commit) and / or a mempool CheckTx (under the mempool lock that excludes Commit), EstimateGas and a historical query at a retained height; every schedule with at most conc_preemption_bound preemptions at the multiplexer's, pruner's and node database's locks and at every database read and durable write is executed; oracle: block results (state root, transaction results, validator updates) equal those of a reference replica that ran alone, the query returns the reference values, the pruner does not fail, and the following block agrees as well")
+	r.Set("conc_preemption_bound", 1)
+	r.Set("conc_rule", "concurrent activity during block execution: after a sequential warm-up (3 blocks) a replica of the real multiplexer with the keep-last-N state pruner executes the next block (ProcessProposal path or plain replay) as one controlled thread while further controlled threads run the state pruner's Prune (as the prune worker does after the previous commit) and / or a mempool CheckTx (under the mempool lock that excludes Commit), EstimateGas and a historical query at a retained height; every schedule with at most conc_preemption_bound preemptions (thorough: more scenarios, and schedules with two preemptions for the rest of a 12-minute budget, reported as conc_extra_*) at the multiplexer's, pruner's and node database's locks and at every database read and durable write is executed; oracle: block results (state root, transaction results, validator updates) equal those of a reference replica that ran alone, the query returns the reference values, the pruner does not fail, and the following block agrees as well")
 	r.Assume("concurrency phase: threads are preempted only at lock acquisitions of the abci package / node database and at badger reads and durable writes; unsynchronised accesses are the business of a free-running race-detector pass, not of this exploration")
 	r.Finish()
 	_ = types.CodeTypeOK
